@@ -1,0 +1,140 @@
+//! Verification hooks (cargo feature `verif-hooks`, off by default).
+//!
+//! [`TcpListener`] and [`TcpStream`] stand in for the `tokio::net` types in the
+//! TCP server: `bind` asks the installed simulated network first and falls back
+//! to a real socket when none is installed (or it declines the address), so a
+//! deterministic-simulation harness can run the real accept loop and the real
+//! connection handler on in-process byte streams. With the feature on and
+//! nothing installed, behaviour is unchanged.
+
+use std::future::Future;
+use std::io;
+use std::net::SocketAddr;
+use std::pin::Pin;
+use std::sync::{Arc, RwLock};
+use std::task::{Context, Poll};
+use tokio::io::{AsyncRead, AsyncWrite, ReadBuf};
+
+/// One end of a simulated byte stream.
+pub trait Duplex: AsyncRead + AsyncWrite + Send + Unpin {}
+impl<T: AsyncRead + AsyncWrite + Send + Unpin> Duplex for T {}
+
+/// Future returned by [`SimListener::accept`].
+pub type AcceptFuture<'a> =
+    Pin<Box<dyn Future<Output = io::Result<(Box<dyn Duplex>, SocketAddr)>> + Send + 'a>>;
+
+/// A simulated listening socket.
+pub trait SimListener: Send + Sync {
+    /// Wait for the next simulated connection.
+    fn accept(&self) -> AcceptFuture<'_>;
+}
+
+/// A simulated network: returns `None` to let a real socket handle `addr`.
+pub trait SimNet: Send + Sync {
+    /// Bind a listener to `addr`.
+    fn bind(&self, addr: SocketAddr) -> Option<io::Result<Box<dyn SimListener>>>;
+}
+
+static NET: RwLock<Option<Arc<dyn SimNet>>> = RwLock::new(None);
+
+/// Install (or remove) the process-wide simulated network.
+pub fn install_net(net: Option<Arc<dyn SimNet>>) {
+    if let Ok(mut slot) = NET.write() {
+        *slot = net;
+    }
+}
+
+/// `tokio::net::TcpListener` or a simulated listener.
+pub enum TcpListener {
+    /// A real listening socket.
+    Real(tokio::net::TcpListener),
+    /// A simulated listener.
+    Sim(Box<dyn SimListener>),
+}
+
+impl TcpListener {
+    /// Bind to `addr`, on the simulated network when one is installed.
+    pub async fn bind(addr: SocketAddr) -> io::Result<Self> {
+        let simulated = NET
+            .read()
+            .ok()
+            .and_then(|slot| slot.clone())
+            .and_then(|net| net.bind(addr));
+        match simulated {
+            Some(listener) => Ok(Self::Sim(listener?)),
+            None => Ok(Self::Real(tokio::net::TcpListener::bind(addr).await?)),
+        }
+    }
+
+    /// Accept the next connection.
+    pub async fn accept(&self) -> io::Result<(TcpStream, SocketAddr)> {
+        match self {
+            Self::Real(listener) => {
+                let (stream, addr) = listener.accept().await?;
+                Ok((TcpStream::Real(stream), addr))
+            }
+            Self::Sim(listener) => {
+                let (stream, addr) = listener.accept().await?;
+                Ok((TcpStream::Sim(stream, addr), addr))
+            }
+        }
+    }
+}
+
+/// `tokio::net::TcpStream` or one end of a simulated connection.
+pub enum TcpStream {
+    /// A real socket.
+    Real(tokio::net::TcpStream),
+    /// A simulated connection and the peer address it was accepted from.
+    Sim(Box<dyn Duplex>, SocketAddr),
+}
+
+impl TcpStream {
+    /// Address of the remote peer.
+    pub fn peer_addr(&self) -> io::Result<SocketAddr> {
+        match self {
+            Self::Real(stream) => stream.peer_addr(),
+            Self::Sim(_, addr) => Ok(*addr),
+        }
+    }
+}
+
+impl AsyncRead for TcpStream {
+    fn poll_read(
+        self: Pin<&mut Self>,
+        cx: &mut Context<'_>,
+        buf: &mut ReadBuf<'_>,
+    ) -> Poll<io::Result<()>> {
+        match self.get_mut() {
+            Self::Real(s) => Pin::new(s).poll_read(cx, buf),
+            Self::Sim(s, _) => Pin::new(s).poll_read(cx, buf),
+        }
+    }
+}
+
+impl AsyncWrite for TcpStream {
+    fn poll_write(
+        self: Pin<&mut Self>,
+        cx: &mut Context<'_>,
+        buf: &[u8],
+    ) -> Poll<io::Result<usize>> {
+        match self.get_mut() {
+            Self::Real(s) => Pin::new(s).poll_write(cx, buf),
+            Self::Sim(s, _) => Pin::new(s).poll_write(cx, buf),
+        }
+    }
+
+    fn poll_flush(self: Pin<&mut Self>, cx: &mut Context<'_>) -> Poll<io::Result<()>> {
+        match self.get_mut() {
+            Self::Real(s) => Pin::new(s).poll_flush(cx),
+            Self::Sim(s, _) => Pin::new(s).poll_flush(cx),
+        }
+    }
+
+    fn poll_shutdown(self: Pin<&mut Self>, cx: &mut Context<'_>) -> Poll<io::Result<()>> {
+        match self.get_mut() {
+            Self::Real(s) => Pin::new(s).poll_shutdown(cx),
+            Self::Sim(s, _) => Pin::new(s).poll_shutdown(cx),
+        }
+    }
+}
